@@ -207,6 +207,12 @@ structure Params where
   listenerRemovesFile : Bool
   /-- the `go` statement sites found, as sorted site numbers (0 = unknown to the model) -/
   goSites : List Nat
+  /-- `Client.Kill`: the deferred clean-up (`clientWaitGroup.Wait`, `os.RemoveAll(hostSocketDir)`,
+  `c.runner = nil`) is registered WHENEVER A RUNNER WAS RECORDED: the only `return` above the `defer`
+  is the nothing-was-launched check (`runner == nil || runner.ID() == ""`), and the deferred func
+  itself reaches `Wait` and `RemoveAll` on every path (no `return` inside it).  In particular the
+  clean-up does not depend on whether the plugin process is still running when `Kill` is called. -/
+  killCleanupWheneverRunner : Bool
   deriving DecidableEq, Repr
 
 /-- Behaviour of libraries the call graph passes through (not extracted; theorems hold for every value). -/
@@ -245,10 +251,15 @@ def Params.GoodGoroutines (P : Params) : Prop :=
 
 def Params.Good (P : Params) : Prop := P.GoodFiles ∧ P.GoodGoroutines
 
+/-- The fact the property needs for the states of the plugin OTHER than "still running" at the
+moment `Kill` is called (see `AtKill` below): `Kill`'s clean-up runs whenever a runner was recorded. -/
+def Params.GoodKill (P : Params) : Prop := P.killCleanupWheneverRunner = true
+
 instance (P : Params) : Decidable P.GoodFiles := by unfold Params.GoodFiles; exact inferInstance
 instance (P : Params) : Decidable P.GoodFilesPartial := by unfold Params.GoodFilesPartial; exact inferInstance
 instance (P : Params) : Decidable P.GoodGoroutines := by unfold Params.GoodGoroutines; exact inferInstance
 instance (P : Params) : Decidable P.Good := by unfold Params.Good; exact inferInstance
+instance (P : Params) : Decidable P.GoodKill := by unfold Params.GoodKill; exact inferInstance
 
 /-- All edges present, all sites known. -/
 def goodParams : Params :=
@@ -259,7 +270,7 @@ def goodParams : Params :=
     brokerCloseClosesListeners := true, serveDefersListenerClose := true,
     muxerCloseClosesWrappedListener := true, acceptAndServeClosesListener := true,
     acceptAndServeEndsOnBrokerDone := true, brokeredListenerIsRmListener := true,
-    listenerRemovesFile := true, goSites := knownSites }
+    listenerRemovesFile := true, goSites := knownSites, killCleanupWheneverRunner := true }
 
 /-! ### The `Close` call graph: which shutdown events a graceful `Kill` produces -/
 
@@ -470,5 +481,55 @@ def Site.inClientWaitGroup : Site → Bool
 
 /-- Is the site's goroutine certainly gone at the moment `Kill` returns? -/
 def goneAtKillReturn (P : Params) (s : Site) : Bool := s.inClientWaitGroup && P.killWaitsForGoroutines
+
+/-! ### The plugin's state at the moment `Kill` is called
+
+The ledger above is evaluated for the ordinary history `Start … use … Kill`: the plugin is running
+when `Kill` is called, and `Kill` itself closes the protocol client.  A host may also be done with
+the plugin EARLIER: it calls `ClientProtocol.Close()` itself — the very call `Kill` would make: the
+broker is closed, the plugin is asked to shut down and exits gracefully, the client's wait goroutine
+records `exited` — and only later makes the customary `Kill` call.  `Kill` then finds a recorded
+runner whose process is gone.  What is left to `Kill` is its own deferred clean-up: waiting for the
+client's goroutines and removing the runner's socket directory (nothing else ever removes that
+directory after a successful `Start`). -/
+
+inductive AtKill
+  /-- the plugin process is running when `Kill` is called (the histories of `ledgerAfter`) -/
+  | running
+  /-- the host closed the protocol client itself, the plugin exited gracefully and the client has
+  recorded the exit (`Exited()` is true) before `Kill` is called -/
+  | exited
+  deriving DecidableEq, Repr
+
+/-- Does `Kill`'s deferred clean-up run when `Kill` finds the plugin in state `k`?  With the fact it
+runs whenever a runner was recorded.  Without it `Kill` has some other `return` above the `defer`
+(or inside the deferred func): the model takes that return in every state but the ordinary one — on
+the ordinary one the edges `killWaitsForGoroutines` / `killRemovesSocketDir` and the correspondence
+run decide, as before. -/
+def cleanupRuns (P : Params) : AtKill → Bool
+  | .running => true
+  | .exited => P.killCleanupWheneverRunner
+
+/-- The edges of the shutdown call graph that are EFFECTIVE when `Kill` finds the plugin in state
+`k`.  `running`: the extracted ones.  `exited`: the protocol client HAS been closed — by the host
+rather than by `Kill`: same call, same consequences downstream — and `Kill`'s own two duties are
+done only if its clean-up is reached. -/
+def Params.atKill (P : Params) : AtKill → Params
+  | .running => P
+  | .exited =>
+    { P with
+      killClosesClient := true
+      killWaitsForGoroutines := P.killWaitsForGoroutines && cleanupRuns P .exited
+      killRemovesSocketDir := P.killRemovesSocketDir && cleanupRuns P .exited }
+
+/-- The ledger after the history, the plugin reaching state `k`, and `Kill`. -/
+def ledgerAfterK (P : Params) (L : Lib) (c : Cfg) (h : List Op) (k : AtKill) : List Entry :=
+  ledgerAfter (P.atKill k) L c h
+
+def leftFilesK (P : Params) (L : Lib) (c : Cfg) (h : List Op) (k : AtKill) : List Entry :=
+  leftFiles (P.atKill k) L c h
+
+def leftGoroutinesK (P : Params) (L : Lib) (c : Cfg) (h : List Op) (k : AtKill) : List Entry :=
+  leftGoroutines (P.atKill k) L c h
 
 end GoPlugin.Resources
